@@ -134,6 +134,35 @@ def run_case(case):
     return dict(nontrivial=bool(case["pairs"]), outcome=" ".join(outcome), violations=out)
 
 
+def _files(case, seq, s, dbn, out):
+    """The file readers of the same texts: DotBracket.from_file (two lines / header + two lines), MultiStrandDotBracket.from_file, BpSeq.from_file."""
+    import os
+
+    from rnapolis.common import BpSeq, DotBracket, MultiStrandDotBracket
+
+    from mc.engine import scratch_dir
+
+    sd = scratch_dir()
+    p = os.path.join(sd, "c01.dbn")
+    for name, text in (("two-lines", "%s\n%s\n" % (seq, s)), ("header", ">strand_A\n%s\n%s\n" % (seq, s)), ("no-final-newline", "%s\n%s" % (seq, s))):
+        with open(p, "w") as f:
+            f.write(text)
+        d = call("DotBracket.from_file:" + name, DotBracket.from_file, out, p)
+        if d is not None and (d.sequence, d.structure, sorted(d.pairs)) != (seq, s, sorted(dbn.pairs)):
+            out.append(viol("from_file:DotBracket:" + name, "DotBracket.from_file reads %r differently from from_string" % text, [d.sequence, d.structure], [seq, s]))
+        m = call("MultiStrandDotBracket.from_file:" + name, MultiStrandDotBracket.from_file, out, p)
+        if m is not None and (m.sequence, m.structure, sorted(m.pairs)) != (seq, s, sorted(dbn.pairs)):
+            out.append(viol("from_file:MultiStrandDotBracket:" + name, "MultiStrandDotBracket.from_file reads %r differently from from_string" % text, [m.sequence, m.structure], [seq, s]))
+    b0 = call("from_dotbracket", BpSeq.from_dotbracket, out, dbn)
+    if b0 is not None:
+        for name, text in (("plain", str(b0) + "\n"), ("blank-lines-and-spaces", "\n" + "\n".join("  %s  " % ln for ln in str(b0).splitlines()) + "\n\n")):
+            with open(p, "w") as f:
+                f.write(text)
+            bf = call("BpSeq.from_file:" + name, BpSeq.from_file, out, p)
+            if bf is not None and not (bf == b0 and str(bf) == str(b0)):
+                out.append(viol("from_file:BpSeq:" + name, "BpSeq.from_file(str(b)) != b", str(bf), str(b0)))
+
+
 def _run_string(case):
     from rnapolis.common import BpSeq, DotBracket, MultiStrandDotBracket
 
@@ -167,6 +196,8 @@ def _run_string(case):
     got = set((i + 1, j + 1) for i, j in dbn.pairs)
     if got != want:
         out.append(viol("DotBracket.pairs", "DotBracket.pairs of %r differs from the stack decoder" % s, sorted(got), sorted(want)))
+    if n <= 6:
+        _files(case, seq, s, dbn, out)
     b = call("from_dotbracket", BpSeq.from_dotbracket, out, dbn)
     if b is not None:
         bp = set((e.index_, e.pair) for e in b.entries if e.pair > e.index_)
